@@ -31,6 +31,9 @@ func ListLabels(repo string, stores context2.Stores, opts ...Option) ([]model.La
 
 	workers.Wait()
 
+	// batches are sorted individually and come in key order: sort again to get the same order whatever the batch size
+	sort.Sort(labels)
+
 	return labels, err // we may have some batches resolved before the error occurred
 }
 
